@@ -65,63 +65,64 @@ type writeRec struct {
 }
 
 type Gen struct {
-	W             *World
-	fn            *ssa.Function
-	fc            *FuncContract
-	short         string
-	decls         []string
-	declared      map[string]bool
-	cons          []string
-	obls          []*Oblig
-	nfresh        int
-	compSort      map[string]string
-	strs          map[string]string
-	typeIDs       map[string]int
-	entry         *State
-	notes         map[string]bool
-	trusted       map[string]bool
-	inlined       map[string]bool
-	errs          []string
-	dry           int
-	wCells        map[*ssa.Alloc]bool
-	wComps        map[string][]writeRec
-	wAlloc        bool
-	rangeDone     map[string]bool
-	safetyN       map[string]int
-	siteN         map[string]int
-	panicsNever   bool
-	stdTagUsed    bool
-	addrTokens    map[string]*LValue
-	tokenAlias    []string               // merged names standing for "this token or nil"
-	bytesSeen     map[string][][2]string // object array -> ranges whose content identity was mentioned
-	arrPrev       map[string]arrDelta    // object arrays produced by a range-limited write: the array before and the written range
-	nonStdTags    map[int]bool
-	entryParams   map[string]*Value
-	extraAxioms   []string
-	usedSpec      map[string]bool
-	axiomsDone    map[string]bool
-	globalsSeen   map[string]bool
-	allWrites     map[string][]writeRec
-	loopWatermark int
-	phiConds      map[*ssa.BasicBlock][]string
-	havocAllLater bool
-	dryFacts      int
-	specDepth     int
-	specInfos     map[string]*specInfo
-	symStack      []*symHeap
-	symStates     []*State
-	specAxioms    []string
-	entryReach    string
-	exceptTerms   map[string]string
-	recDefs       []string
-	pathIDs       map[string]int
-	ownOnly       bool
-	privBoxes     []*LValue
-	stableKeys    map[string]bool
-	useTwin       bool
-	heapAxioms    []heapAxiom
-	heapSigs      map[string]bool
-	heapSnaps     []map[string]string
+	W                 *World
+	fn                *ssa.Function
+	fc                *FuncContract
+	short             string
+	decls             []string
+	declared          map[string]bool
+	cons              []string
+	obls              []*Oblig
+	nfresh            int
+	compSort          map[string]string
+	strs              map[string]string
+	typeIDs           map[string]int
+	entry             *State
+	notes             map[string]bool
+	trusted           map[string]bool
+	inlined           map[string]bool
+	errs              []string
+	dry               int
+	wCells            map[*ssa.Alloc]bool
+	wComps            map[string][]writeRec
+	wAlloc            bool
+	rangeDone         map[string]bool
+	safetyN           map[string]int
+	siteN             map[string]int
+	panicsNever       bool
+	stdTagUsed        bool
+	atSeen, atSkipped map[string]int
+	addrTokens        map[string]*LValue
+	tokenAlias        []string               // merged names standing for "this token or nil"
+	bytesSeen         map[string][][2]string // object array -> ranges whose content identity was mentioned
+	arrPrev           map[string]arrDelta    // object arrays produced by a range-limited write: the array before and the written range
+	nonStdTags        map[int]bool
+	entryParams       map[string]*Value
+	extraAxioms       []string
+	usedSpec          map[string]bool
+	axiomsDone        map[string]bool
+	globalsSeen       map[string]bool
+	allWrites         map[string][]writeRec
+	loopWatermark     int
+	phiConds          map[*ssa.BasicBlock][]string
+	havocAllLater     bool
+	dryFacts          int
+	specDepth         int
+	specInfos         map[string]*specInfo
+	symStack          []*symHeap
+	symStates         []*State
+	specAxioms        []string
+	entryReach        string
+	exceptTerms       map[string]string
+	recDefs           []string
+	pathIDs           map[string]int
+	ownOnly           bool
+	privBoxes         []*LValue
+	stableKeys        map[string]bool
+	useTwin           bool
+	heapAxioms        []heapAxiom
+	heapSigs          map[string]bool
+	heapSnaps         []map[string]string
 }
 
 func newGen(w *World, fn *ssa.Function, fc *FuncContract) *Gen {
